@@ -14,7 +14,7 @@ def check(tier, replay):
               ("every history of <= 5 calls after setup (one object)", "Gen_Annot.tla", "Gen_Annot_hist.cfg", "cover", {"sample": 6000}),
               ("simulate depth 18: <= 12 annotations, 3 objects", "Gen_Annot.tla", "Gen_Annot_sim.cfg", "sim", {"num_quick": 1500, "num": 30000, "depth": 18}),
               ("simulate depth 70: up to 60 annotations on 2 objects", "Gen_Annot.tla", "Gen_Annot_simmany.cfg", "sim", {"num_quick": 150, "num": 3000, "depth": 70})],
-        mutators={"Create", "Rewrite", "DfPut", "DfAddFile", "ToDF", "ToAN"},
+        mutators={"Create", "Rewrite", "DfPut", "DfOther", "DfAddFile", "ToDF", "ToAN"},
         need_actions=["Setup", "FileInfo", "ToDF", "ToAN"],
         tv_quick=6000, drive_timeout=120,
         assumptions=["texts are named by (length, seed); labels contain no NUL byte, descriptions contain every byte value",
